@@ -749,43 +749,43 @@ Proof.
   intros k v l e [H|H]; [left; auto|right]. apply filter_In in H. tauto.
 Qed.
 
-(* at most one confirm per key after an import, whatever was exported *)
-Theorem import_nodup : forall st, NoDup (map fst (import_conf st)).
+(* at most one confirm per key after an import, whatever was exported, whichever way the owner is resolved *)
+Theorem import_nodup : forall by_ext st, NoDup (map fst (import_conf by_ext st)).
 Proof.
-  intros st. unfold import_conf.
+  intros by_ext st. unfold import_conf.
   assert (G : forall (es : list (ckey * cmsg)) acc, NoDup (map fst acc) ->
             NoDup (map fst (fold_left (fun acc e =>
                fold_left (fun acc oa => kv_set ckey_eqb (msg_okey (snd e), oa) (snd e) acc)
-                         (resolve (st_oracles st) (m_bridger (snd e))) acc) es acc))).
+                         (owners by_ext st (snd e)) acc) es acc))).
   { induction es as [|e es IH]; intros acc N; cbn [fold_left]; auto. apply IH.
-    generalize (resolve (st_oracles st) (m_bridger (snd e))). intros os. revert acc N.
+    generalize (owners by_ext st (snd e)). intros os. revert acc N.
     induction os as [|oa os IHo]; intros acc N; cbn [fold_left]; auto.
     apply IHo. apply NoDup_kv_set. exact N. }
   apply G. constructor.
 Qed.
 
-(* the bridger written in a stored confirm still resolves to the oracle the confirm is stored under (or to none) *)
-Definition bridgers_resolve_to_key (st : cstate) : Prop :=
-  forall k m oa, In (k, m) (st_conf st) -> In oa (resolve (st_oracles st) (m_bridger m)) -> k = (msg_okey m, oa).
+(* generic: if every owner the import finds for a stored confirm is the oracle it is stored under, the import
+   invents nothing and moves nothing *)
+Definition owners_agree (by_ext : bool) (st : cstate) : Prop :=
+  forall k m oa, In (k, m) (st_conf st) -> In oa (owners by_ext st m) -> k = (msg_okey m, oa).
 
-(* then an import invents nothing and moves nothing: every imported confirm is a confirm that was stored, under its key *)
-Theorem import_sound : forall st, bridgers_resolve_to_key st ->
-  forall e, In e (import_conf st) -> In e (st_conf st).
+Lemma import_sound_gen : forall by_ext st, owners_agree by_ext st ->
+  forall e, In e (import_conf by_ext st) -> In e (st_conf st).
 Proof.
-  intros st B. unfold import_conf.
+  intros by_ext st B. unfold import_conf.
   assert (X : forall e, In e (exported st) -> In e (st_conf st)).
   { intros e H. apply filter_In in H. tauto. }
   assert (G : forall (es : list (ckey * cmsg)) acc,
             (forall e, In e es -> In e (st_conf st)) -> (forall e, In e acc -> In e (st_conf st)) ->
             forall e, In e (fold_left (fun acc e =>
                fold_left (fun acc oa => kv_set ckey_eqb (msg_okey (snd e), oa) (snd e) acc)
-                         (resolve (st_oracles st) (m_bridger (snd e))) acc) es acc) -> In e (st_conf st)).
+                         (owners by_ext st (snd e)) acc) es acc) -> In e (st_conf st)).
   { induction es as [|x es IH]; intros acc Hes Hacc e H; cbn [fold_left] in H; auto.
     apply (IH _ (fun e He => Hes e (or_intror He))) in H; auto. clear H e.
     assert (Hx : In x (st_conf st)) by (apply Hes; left; auto). destruct x as [k m]. cbn [snd] in *.
-    assert (R : forall oa, In oa (resolve (st_oracles st) (m_bridger m)) -> (msg_okey m, oa) = k).
+    assert (R : forall oa, In oa (owners by_ext st m) -> (msg_okey m, oa) = k).
     { intros oa Ho. symmetry. eapply B; eauto. }
-    revert R Hacc. generalize (resolve (st_oracles st) (m_bridger m)). intros os. revert acc.
+    revert R Hacc. generalize (owners by_ext st m). intros os. revert acc.
     induction os as [|oa os IHo]; intros acc R Hacc e H; cbn [fold_left] in H; auto.
     apply IHo in H; auto.
     - intros oa' Ho. apply R. right. exact Ho.
@@ -794,8 +794,50 @@ Proof.
   apply G; auto. intros e [].
 Qed.
 
-(* without that guard the faithful model misattributes: oracle 11 confirmed through bridger 21, then moved to bridger 23,
-   and oracle 12 took over the released account 21: the import files 11's confirm (external key 31) under oracle 12 *)
+(* the tree as it is (owner by bridger): sound only while the bridger written in a stored confirm still resolves to
+   the oracle the confirm is stored under, or to none *)
+Definition bridgers_resolve_to_key (st : cstate) : Prop := owners_agree false st.
+
+Theorem import_sound_by_bridger : forall st, bridgers_resolve_to_key st ->
+  forall e, In e (import_conf false st) -> In e (st_conf st).
+Proof. intros st. apply import_sound_gen. Qed.
+
+(* the repaired variant (owner by external address): no condition on bridgers at all.  What it uses is the invariant
+   the handlers establish - every stored confirm sits, under the key its own fields name, with an oracle whose
+   registered external address is the one written in it - and that external addresses are registered once. *)
+Definition conf_attributed (st : cstate) : Prop :=
+  forall k m, In (k, m) (st_conf st) ->
+    k = (msg_okey m, snd k) /\ exists o, In (snd k, o) (st_oracles st) /\ o_external o = m_external m.
+Definition ext_unique (st : cstate) : Prop :=
+  forall p q, In p (st_oracles st) -> In q (st_oracles st) -> o_external (snd p) = o_external (snd q) -> fst p = fst q.
+
+Theorem import_sound_by_external : forall st, conf_attributed st -> ext_unique st ->
+  forall e, In e (import_conf true st) -> In e (st_conf st).
+Proof.
+  intros st A U. apply import_sound_gen. intros k m oa Hk Ho.
+  destruct (A k m Hk) as (EK & o & Io & Eo). rewrite EK. f_equal.
+  unfold owners, resolve_ext in Ho.
+  destruct (rev (filter (fun p => o_external (snd p) =? m_external m) (st_oracles st))) as [|p r] eqn:ER; [contradiction|].
+  destruct Ho as [<-|[]].
+  assert (Ip : In p (filter (fun p => o_external (snd p) =? m_external m) (st_oracles st))).
+  { apply in_rev. rewrite ER. left. reflexivity. }
+  apply filter_In in Ip. destruct Ip as [Ip Ep]. apply Z.eqb_eq in Ep.
+  apply (U (snd k, o) p Io Ip). cbn [snd]. congruence.
+Qed.
+
+(* whichever of the two the tree does (generated fact) *)
+Theorem import_sound_on_tree : forall st,
+  (if genesis_confirm_owner_by_external then conf_attributed st /\ ext_unique st else bridgers_resolve_to_key st) ->
+  forall e, In e (import_conf genesis_confirm_owner_by_external st) -> In e (st_conf st).
+Proof.
+  intros st. destruct genesis_confirm_owner_by_external.
+  - intros [A U]. apply import_sound_by_external; auto.
+  - apply import_sound_by_bridger.
+Qed.
+
+(* C12-1: by bridger, without the guard, the faithful model misattributes: oracle 11 confirmed through bridger 21, then
+   moved to bridger 23, and oracle 12 took over the released account 21: the import files 11's confirm (external key 31)
+   under oracle 12.  By external address the confirm stays where it was. *)
 Definition ex_reuse_state : cstate :=
   {| st_tron := false; st_gid := bytes_of_string "fx-gravity-id";
      st_ext_index := [(31, 11); (32, 12)];
@@ -804,6 +846,7 @@ Definition ex_reuse_state : cstate :=
      st_conf := [(((KOracleSet, 0, 3), 11), ex_msg)] |}.
 
 Theorem import_misattributes_after_bridger_reuse :
-  import_conf ex_reuse_state = [(((KOracleSet, 0, 3), 12), ex_msg)] /\ m_external ex_msg = 31 /\
-  assoc Z.eqb 12 (st_oracles ex_reuse_state) = Some {| o_bridger := 21; o_external := 32 |}.
+  import_conf false ex_reuse_state = [(((KOracleSet, 0, 3), 12), ex_msg)] /\ m_external ex_msg = 31 /\
+  assoc Z.eqb 12 (st_oracles ex_reuse_state) = Some {| o_bridger := 21; o_external := 32 |} /\
+  import_conf true ex_reuse_state = st_conf ex_reuse_state.
 Proof. repeat split; vm_compute; reflexivity. Qed.
